@@ -435,7 +435,7 @@ func (c *Ctx) samMalformed() []byte {
 			case 3:
 				fs = append(fs, []byte("XX:i:notanumber"))
 			case 4:
-				fs = append(fs, []byte([]string{"XX:A:ab", "XX", "XX:H:abc", "XX:q:1", "X:Y", "XX:B:c,1,2", "XX:f:1.5", "XX:f:zz", "XX:A:\xff", "XX:Z:\"q\"\"", "::", "XX:i:+5", "XX:i:99999999999999999999"}[c.rng.Intn(13)]))
+				fs = append(fs, []byte([]string{"XX:A:ab", "XX", "XX:H:abc", "XX:q:1", "X:Y", "XX:B:c,1,2", "XX:f:1.5", "XX:f:zz", "XF:f:1.2345678901234567e-01", "XG:f:5e-324", "XH:f:1.7976931348623157e+308", "XI:f:16777217", "XX:A:\xff", "XX:Z:\"q\"\"", "::", "XX:i:+5", "XX:i:99999999999999999999"}[c.rng.Intn(17)]))
 			case 5:
 				fs[j] = []byte("\"" + string(fs[j]))
 			}
@@ -794,4 +794,73 @@ func init() {
 			return itemsStr(f.decode(r, 0, len(data)+16))
 		}
 	}
+}
+
+
+// longLineInputs returns, per format, well-formed inputs whose lines are long
+// enough to cross bufio's 4096-byte buffer in every phase (content lengths
+// around 4096 and 8192, in particular 4095 and 8191 so that with CRLF the CR
+// is the last byte of a full buffer).
+func (c *Ctx) longLineInputs(name string) [][]byte {
+	var out [][]byte
+	lens := []int{4093, 4094, 4095, 4096, 4097, 8191, 8192, 5000}
+	fill := func(n int) string {
+		if n < 0 {
+			n = 0
+		}
+		return string(c.bytesFrom([]byte("ACGTacgt"), n))
+	}
+	for _, L := range lens {
+		switch name {
+		case "fasta":
+			// one long unwrapped line is a legal layout; also a long name line
+			out = append(out, []byte(">n\n"+fill(L)+"\n>m\nAC\n"), []byte(">"+fill(L-1)+"\nACGT\n"))
+		case "fastq":
+			out = append(out, []byte("@r1\n"+fill(L)+"\n+\n"+fill(L)+"\n@r2\nAC\n+\nII\n"), []byte("@"+fill(L-1)+"\nAC\n+\nII\n"))
+		case "sam", "samh":
+			rec := "q\t0\tr\t1\t2\t*\t=\t3\t4\t"
+			pre := len(rec) + 1
+			half := (L - pre) / 2
+			line := rec + fill(half) + "\t" + fill(L-pre-half)
+			out = append(out, []byte("@HD\t"+fill(L-4)+"\nq0\t0\tr\t1\t2\t*\t=\t3\t4\tA\tI\n"+line+"\nq2\t0\tr\t1\t2\t*\t=\t3\t4\tC\tI\n"))
+		case "bed":
+			base := "chr1\t1\t2\t"
+			out = append(out, []byte("c\t5\t6\tn0\n"+base+fill(L-len(base))+"\nc\t7\t8\tn2\n"))
+		case "newick":
+			out = append(out, []byte("("+fill(L)+",b)c;\n(d,e)f;\n"))
+		}
+	}
+	return out
+}
+
+// bedWithComments interleaves '#' comment lines and blank lines (LF and CRLF).
+func (c *Ctx) bedWithComments(lfOnly bool) []byte {
+	rs := c.bedRecs()
+	var b bytes.Buffer
+	junk := func() {
+		for c.rng.Intn(2) == 0 {
+			switch c.rng.Intn(3) {
+			case 0:
+				b.WriteString("# comment " + string(c.text(c.rng.Intn(20), "")) + "\n")
+			case 1:
+				if lfOnly {
+					b.WriteString("\n")
+				} else {
+					b.WriteString("\r\n")
+				}
+			case 2:
+				if lfOnly {
+					b.WriteString("#\n\n")
+				} else {
+					b.WriteString("#\r\n\n")
+				}
+			}
+		}
+	}
+	junk()
+	for _, r := range rs {
+		r.Write(&b)
+		junk()
+	}
+	return b.Bytes()
 }
